@@ -412,7 +412,10 @@ def gen_E(rng):
     D = rng.randint(r, r + 2)
     pts = gen_euclid(rng, n, r, D)
     lo = max(3.0 / n, (r + 2) / n)
-    ratio = rng.choice([rng.uniform(lo, 1.0), rng.uniform(lo, min(1.0, lo + 0.3)), 0.5 if 0.5 >= lo else lo])
+    kb = rng.randint(min(n, max(4, r + 3)), n)
+    ratio = rng.choice([rng.uniform(lo, 1.0), rng.uniform(lo, min(1.0, lo + 0.3)), 0.5 if 0.5 >= lo else lo,
+                        # one ulp below k/N: the integer part of landmark_ratio*N is k - 1, not k
+                        max(lo, math.nextafter(kb / n, 0.0))])
     return {"mode": "E", "method": "lmds", "N": n, "d": r, "ratio": ratio, "pts": pts,
             "seeds": [rng.randrange(1 << 30) for _ in range(3)]}
 
@@ -743,9 +746,7 @@ def eval_R(ctx, exe, mexe, cases, st):
                 break
         if bad:
             ctx.violation(jsonable(c), "triangulate: row %d is %s, the triangulation formula "
-                          "-1/2 pinv(Y_L)(d^2 - mu) / landmark copy gives %s (exact dyadic operands%s)" % (
-                              bad + (", all operands scaled by 2^%d and the result scaled back" % sc_of(c)
-                                     if sc_of(c) else "",)))
+                          "-1/2 pinv(Y_L)(d^2 - mu) / landmark copy gives %s (exact dyadic operands)" % bad)
             continue
         if emb != memb:
             k = next(i for i, (a, b) in enumerate(zip(emb, memb)) if a != b)
@@ -1593,6 +1594,7 @@ def build(ctx):
 def run(ctx):
     rng = ctx.rng
     st = Stats()
+    say_scale(ctx)
     coq = ctx.coq()
     st.times["coq"] = round(ctx.elapsed(), 1)
     exe, mexe = build(ctx)
@@ -1639,6 +1641,21 @@ def run(ctx):
                "mismatches_by_stream": by_stream(ctx._mismatches)})
 
 
+def say_scale(ctx):
+    """violations on a scaled copy say so (the replay case carries the exponent in its field sc)"""
+    if getattr(ctx, "_c11_say_scale", False):
+        return
+    orig = ctx.violation
+
+    def violation(case, why, signature=None):
+        if isinstance(case, dict) and sc_of(case):
+            why = "%s [data multiplied by 2^%d (case field sc), results multiplied back before judging]" % (
+                why, sc_of(case))
+        return orig(case, why, signature=signature)
+    ctx.violation = violation
+    ctx._c11_say_scale = True
+
+
 def by_stream(pairs):
     out = {}
     for cs, _ in pairs:
@@ -1652,6 +1669,7 @@ def by_stream(pairs):
 def replay(ctx, case):
     exe, mexe = build(ctx)
     st = Stats()
+    say_scale(ctx)
     c = revive(case)
     mode = c.get("mode")
     key = mode if mode in STREAMS else None
